@@ -11,6 +11,7 @@ import (
 	"verifharness/bridge"
 	"verifharness/core"
 	"verifharness/gen"
+	"verifharness/libsa"
 	"verifharness/ref"
 )
 
@@ -500,13 +501,71 @@ func c13(c *core.Ctx) {
 		}
 		c13One(k, base, ins, pos, &ref.Opts{Noise: k.R.Byte, CritKnown: k.R.Bool}, "multiple")
 	})
+	// unsupported payloads in front of the Encrypted payload of a protected message (cleartext, covered by the checksum):
+	// unprotection must give exactly the message without them, or an error if any is critical
+	c.Family("before-SK", c.N(36*40, 36*6000), func(k *core.Case) {
+		s, init, pre := cell(k.Index % 36)
+		raw := libsa.RandomRaw(k.R, s)
+		base := gen.Msg(k.R, gen.Opt{Protected: true, MaxPayloads: 3, AllowEmpty: true})
+		inner, first, err := ref.EncodeChain(base.Payloads, nil)
+		if err != nil {
+			return
+		}
+		n := 1 + k.R.Intn(3)
+		var outer []abs.Payload
+		anyCrit := false
+		for i := 0; i < n; i++ {
+			p := abs.Payload{Kind: types[k.R.Intn(len(types))], Data: k.R.Bytes(k.R.Pick(0, 1, 4, 17, 300)), Crit: k.R.Chance(1, 4)}
+			anyCrit = anyCrit || p.Crit
+			outer = append(outer, p)
+		}
+		padn := (16 - (len(inner)+1)%16) % 16
+		wire, err := ref.ProtectOuter(base, first, inner, s, raw.Dir(init), k.R.Bytes(16), k.R.Bytes(padn), nil, outer)
+		if err != nil {
+			return
+		}
+		key, kerr := libsa.NewKey(raw)
+		if kerr != nil {
+			return
+		}
+		tr := libsa.Spy(key)
+		k.Eval(1)
+		d, derr, p := libUnprotect(wire, pre, key, !init)
+		w := M{"base": msgJSON(base), "wire": core.HexClip(wire, 2048), "outer_types": insTypes(outer), "any_critical": anyCrit, "suite": s.Name(), "keys": raw.JSON(), "preparsed_header": pre}
+		if p != nil {
+			k.Violate("panic", "before-SK: "+p.Sig(), "panic", panicData(p, w))
+			return
+		}
+		if anyCrit {
+			if derr == nil {
+				k.Violate("accepted", "critical-unsupported-accepted/before-SK", "", w)
+				return
+			}
+			k.Count("before_SK_rejected_critical", 1)
+		} else {
+			if derr != nil {
+				k.Violate("decode-error", "noncritical-unsupported-rejected/before-SK: "+classifyErr(derr), errStr(derr), w)
+				return
+			}
+			if !abs.Equal(base, d) {
+				k.Violate("mismatch", "skip-changes-message/before-SK: "+diffClass(base, d), "unprotecting a message with skipped payloads in front of SK differs from the message without them: "+abs.Diff(base, d), w)
+				return
+			}
+			if !hasDecrypt(tr.Snapshot()) {
+				k.Violate("mismatch", "protected-message-returned-without-unprotection/before-SK", "no Decrypt event although the datagram carries an SK payload", w)
+				return
+			}
+			k.Count("before_SK_skipped_ok", 1)
+		}
+		k.Distinct(fmt.Sprintf("beforeSK|%s|%v|%d|%v", s.Name(), pre, n, anyCrit))
+	})
 	c.Family("critical-on-implemented", c.N(12000, 3000000), func(k *core.Case) {
 		base := gen.Msg(k.R, gen.Opt{MaxPayloads: 5})
 		c13One(k, base, nil, nil, &ref.Opts{CritKnown: func() bool { return true }}, "critical-on-implemented")
 		k.Count("critical_on_implemented", 1)
 		k.Distinct("crit-known|" + abs.Kinds(base))
 	})
-	c.Require("rejected_critical", "skipped_ok", "position_front", "position_middle", "position_end", "critical_on_implemented")
+	c.Require("before_SK_rejected_critical", "before_SK_skipped_ok", "rejected_critical", "skipped_ok", "position_front", "position_middle", "position_end", "critical_on_implemented")
 }
 
 var _ = message.TypeSK
